@@ -47,12 +47,12 @@ func init() {
 		Components: map[string]string{
 			"csrf middleware (handler, extractors, managers, origin checks)": "real (instrumented)",
 			"session middleware + store (session backend runs)":              "real (instrumented); middleware registered or not: chosen per run",
-			"session storage":                                                "session's default in-repo memory storage (fault-free runs) or stub SimStorage with error injection behind an accounting wrapper (fault stratum)",
-			"internal/memory storage + GC":                                   "real (instrumented), chosen per run",
-			"external storage":                                               "stub SimStorage (TTL on the coarse clock) with error injection, or the real in-repo internal/storage/memory, behind a key-copying wrapper; chosen per run",
-			"utils.Timestamp updater":                                        "stub daemon on the simulated clock, random phase",
-			"browser cookie store":                                           "stub harness.Browser (RFC 6265 subset, net/http response parser)",
-			"fasthttp accept loop / worker pool / TLS":                       "stub (harness.Conn, scheme via forwarded headers); codecs real",
+			"session storage":                          "session's default in-repo memory storage (fault-free runs) or stub SimStorage with error injection behind an accounting wrapper (fault stratum)",
+			"internal/memory storage + GC":             "real (instrumented), chosen per run",
+			"external storage":                         "stub SimStorage (TTL on the coarse clock) with error injection, or the real in-repo internal/storage/memory, behind a key-copying wrapper; chosen per run",
+			"utils.Timestamp updater":                  "stub daemon on the simulated clock, random phase",
+			"browser cookie store":                     "stub harness.Browser (RFC 6265 subset, net/http response parser)",
+			"fasthttp accept loop / worker pool / TLS": "stub (harness.Conn, scheme via forwarded headers); codecs real",
 		},
 	})
 }
@@ -65,6 +65,7 @@ type csrfTok struct {
 	consumedUnk bool
 	deleted     bool
 	deletedUnk  bool
+	note        string // how it got consumed / deleted (for messages)
 }
 
 type csrfOp struct {
@@ -1051,7 +1052,7 @@ func csrfMain(s *simrt.Sim, info *harness.RunInfo) {
 				}[deny[0]]
 				extra := ""
 				if tk != nil {
-					extra = fmt.Sprintf("; token %s: live until %s, deleted=%v consumed=%v", tk.alias, tk.untilMax.Format("15:04:05.000"), tk.deleted, tk.consumed)
+					extra = fmt.Sprintf("; token %s: live until %s, deleted=%v consumed=%v%s", tk.alias, tk.untilMax.Format("15:04:05.000"), tk.deleted, tk.consumed, tk.note)
 				}
 				if backend == "session" {
 					var may []string
@@ -1180,7 +1181,9 @@ func csrfMain(s *simrt.Sim, info *harness.RunInfo) {
 				if op.dF {
 					tk.consumedUnk = true
 				}
+				tk.note += fmt.Sprintf(" (admitted as single-use token in op%d)", op.id)
 				if sess != nil {
+					tk.note += fmt.Sprintf(" (session storage in op%d: failed get=%d set=%d, records written %v)", op.id, op.sGetF, op.sSetF, op.sWrote)
 					// The presented token can still be in the stored session only if no write of the
 					// record succeeded in this request. That is excused only if as many faults fired
 					// as the backend has independent write rounds for the consumption: one with the
@@ -1239,6 +1242,9 @@ func csrfMain(s *simrt.Sim, info *harness.RunInfo) {
 			first = deny[0]
 		}
 		h.str(op.kind + op.method).str(op.xKind + "/" + op.cookieKind).str(op.originKind + "/" + op.refKind).str(scheme).str(strconv.FormatBool(op.ran)).str(first)
+		if sess != nil {
+			h.str(op.plan).str(strconv.Itoa(op.sGetF) + "/" + strconv.Itoa(op.sSetF) + "/" + strconv.Itoa(len(op.sWrote)))
+		}
 	}
 	if admitted > 0 {
 		s.Count("probe_runs_with_admitted_unsafe")
